@@ -23,7 +23,8 @@ RULE = ("grammar-generated extended ACE texts in every accepted spelling (names/
         "non-canonical spelling, a port or a flag"
         " Round 4: every text is also assigned to the line of a live entry that held the previous text (same judgement); one entry per run with max_ncwb=17 whose 2^17-prefix address set is expanded completely."
         " Round 5: lists of service names in any order on either side; group names that merely contain a keyword."
-        " Rounds 6-7: log keyword among the flags; a standard text assigned to a live extended entry.")
+        " Rounds 6-7: log keyword among the flags; a standard text assigned to a live extended entry."
+        " Round 9: sibling neq lists in consecutive entries.")
 ASSUMPTIONS = ["per-platform name vocabularies are taken from the library's public PortName/Protocol API; numbers from "
                "oracle/names.py", "flag tokens are the six TCP flags; log tokens log/log-input"]
 
